@@ -36,7 +36,10 @@ def make_cores(spec, rng=None):
     cores = []
     for i in range(d):
         shape = (spec['ranks'][i], spec['rows'][i], spec['cols'][i], spec['ranks'][i + 1])
-        cores.append(rand_array(rng, shape, spec['cplx'], spec.get('entries', 'normal'), spec.get('layout', 'C')))
+        # 'real_cores': indices of cores that stay real-typed inside a complex train (mixed dtypes within one train are
+        # legitimate: scalar * t makes only core 0 complex, sums and build_core decide core by core)
+        cplx_i = spec['cplx'] and i not in spec.get('real_cores', [])
+        cores.append(rand_array(rng, shape, cplx_i, spec.get('entries', 'normal'), spec.get('layout', 'C')))
     for i in spec.get('zero_cores', []):
         if 0 <= i < d:
             cores[i] = np.zeros_like(cores[i])
